@@ -493,14 +493,15 @@ Definition split_verdict (c : split_case) : verdict :=
 (* ---- C05: parameter delivery ---- *)
 From Lekkersim Require Import Params.
 
-(* the user's functions by number: 0: 2x+1, 1: x+2y, 2: x/2 (arguments by position) *)
+(* the user's functions by number: 0: 2x+1, 1: x+2y, 2: x/2 (arguments by position), 3: the constant 3/4 *)
 Definition fnlib (f : nat) (args : dict) : val :=
   let x := match args with (_, v) :: _ => v | _ => 0%Q end in
   let y := match args with _ :: (_, v) :: _ => v | _ => 0%Q end in
   match f with
   | O => (2 * x + 1)%Q
   | S O => (x + 2 * y)%Q
-  | _ => (x / 2)%Q
+  | S (S O) => (x / 2)%Q
+  | _ => (3 # 4)%Q
   end.
 
 Record par_case := { pa_tree : ptree; pa_kw : dict; pa_obs : obs (list QcCf) }.
@@ -585,6 +586,30 @@ Definition blk_verdict (c : blk_case) : verdict :=
         then Agree else Differ
     end.
 
+(* library blocks, several parameters at once: the model normalises/broadcasts the assignment
+   (Sweep.normalise) and asks the oracle table (scalar solves of the implementation, keyed by the
+   point assignment) for each point; a point the harness did not supply is ModelUndefined *)
+Record blk2_case := { b2_kw : sdict; b2_oracle : list (dict * obs lmx); b2_sweep : obs (list lmx) }.
+
+Definition dict_eqb (a b : dict) : bool :=
+  Nat.eqb (List.length a) (List.length b) &&
+  all2 (fun x y => Nat.eqb (fst x) (fst y) && Qeq_bool (snd x) (snd y)) a b.
+
+Definition blk2_verdict (c : blk2_case) : verdict :=
+  let look (p : dict) := find (fun e => dict_eqb (fst e) p) (b2_oracle c) in
+  match sweep_solve look (b2_kw c), b2_sweep c with
+  | Err _, Raised => BothReject
+  | Err _, Obs _ => Differ                     (* inconsistent lengths must be rejected *)
+  | Ok pts, Raised =>
+      if forallb (fun o => match o with Some (_, Raised) => true | _ => false end) pts
+      then BothReject else ImplError
+  | Ok pts, Obs sw =>
+      if existsb (fun o => match o with None => true | _ => false end) pts then ModelUndefined
+      else if Nat.eqb (List.length sw) (List.length pts) &&
+              all2 (fun o m => match o with Some (_, Obs s) => lmx_eq s m | _ => false end) pts sw
+      then Agree else Differ
+  end.
+
 (* ---- C11: flatten ---- *)
 Record flat_case := {
   fl_tree : ptree;
@@ -652,6 +677,10 @@ Definition mon_verdict (c : mon_case) : verdict :=
   | Err _, _, Raised => BothReject
   | Err e, _, _ => undef e
   end.
+
+(* a sweep: one mon_case per sweep point (the point's component matrices, external matrix and table row) *)
+Definition mons_case := list mon_case.
+Definition mons_verdict (l : mons_case) : verdict := worst (map mon_verdict l).
 
 (* ---- C15: read-out helpers ---- *)
 From Lekkersim Require Import Readout.
